@@ -194,6 +194,7 @@ pub fn generate(seed: u64, n: usize, _thorough: bool, _corpus: Option<&str>) -> 
         out.extend(history_cases(&mut r));
         out.push(pipe_case(&mut r));
         if i % 2 == 0 { out.push(data_doors(&mut r)); }
+        if i % 4 == 1 { out.push(gap_doors(&mut r)); }
     }
     out
 }
@@ -267,7 +268,7 @@ fn continuous_doors(r: &mut Rng) -> Case {
     }
     let text_model = gen_model::build(m.objective().objective_type.clone(), m.objective().rhs.clone(), m.constraints().clone(), &ds);
     let mut pr = r.fork();
-    let text = Printer { r: &mut pr, sp: Spelling { aliases: false, implicit_mul: r.chance(1, 2), redundant_parens: r.chance(1, 2), named_consts: false }, consts: vec![] }.program(&text_model);
+    let text = Printer { r: &mut pr, sp: Spelling { aliases: false, implicit_mul: r.chance(1, 2), redundant_parens: r.chance(1, 2), named_consts: false, minimal_parens: false }, consts: vec![] }.program(&text_model);
     let guard = |f: &mut dyn FnMut() -> (String, Option<f64>)| -> (String, Option<f64>) {
         std::panic::catch_unwind(std::panic::AssertUnwindSafe(|| f())).unwrap_or(("(panic)".to_string(), None))
     };
@@ -369,7 +370,7 @@ fn one(m: &Model, ds: &[VarDecl], r: &mut Rng, i: usize) -> Vec<Case> {
     }
     // (b) the doors
     let builder_lin = Linearizer::linearize(bm.clone());
-    let sp = Spelling { aliases: r.chance(1, 2), implicit_mul: r.chance(1, 2), redundant_parens: r.chance(1, 2), named_consts: false };
+    let sp = Spelling { aliases: r.chance(1, 2), implicit_mul: r.chance(1, 2), redundant_parens: r.chance(1, 2), named_consts: false, minimal_parens: r.chance(1, 2) };
     let mut pr = r.fork();
     // the text declares every builder variable (also the unused one)
     let text_model = gen_model::build(m.objective().objective_type.clone(), m.objective().rhs.clone(), m.constraints().clone(), ds);
@@ -763,18 +764,8 @@ fn history_cases(r: &mut Rng) -> Vec<Case> {
     c.tags = h.tags.clone();
     c.nontrivial = true;
     c.show = show.clone();
-    let section = if h.linear { "solution" } else { "readback" };
+    let section = "solution";
     match solved {
-        // arbitrary expression trees (several hostile constructs at once): which error the linearizer reports first is C01's
-        // matter; the `solve_with` glue (linearize first, its error wins) is diffed on the linear histories, where the only
-        // non-linear construct is an injected product of variables
-        Ok(Err(_)) if !h.linear => { c.tags.push("not-linearizable-undiffed".into()); c.req = head_req.clone(); c.imp = format!("(ok {})", head_imp); }
-        Ok(_) if h.div_by_var => {
-            // a division by an expression with variables: whether the linearizer reports `NonLinearExpression` or prunes the row
-            // first is the business of C01's model; the `solve_with` glue is not diffed on such a history
-            c.tags.push("solve-diff-skipped-div-by-variable".into());
-            c.req = head_req.clone(); c.imp = format!("(ok {})", head_imp);
-        }
         Ok(Ok(sol)) => {
             c.tags.push("readback-canned".into());
             if q_handles.iter().any(|i| sol.var_value(Var { index: *i }).is_none()) { c.tags.push("var-value-none".into()); }
@@ -822,7 +813,7 @@ fn history_cases(r: &mut Rng) -> Vec<Case> {
             let (ot, oe) = h.abs_obj.clone().unwrap_or((OptimizationType::Satisfy, Exp::Number(0.0)));
             let tm_abs = gen_model::build(ot.clone(), rename(&oe), cons, &ds);
             let mut pr = r.fork();
-            let text = Printer { r: &mut pr, sp: Spelling { aliases: false, implicit_mul: false, redundant_parens: false, named_consts: false }, consts: vec![] }.program(&tm_abs);
+            let text = Printer { r: &mut pr, sp: Spelling { aliases: false, implicit_mul: false, redundant_parens: false, named_consts: false, minimal_parens: false }, consts: vec![] }.program(&tm_abs);
             if let Ok(tm) = RoocParser::new(text.clone()).parse_and_transform(vec![], &IndexMap::new()) {
                 let body = |m: &Model| format!("{} {}", m.constraints().iter().map(sx::constraint).collect::<Vec<_>>().join(" "), strip_usage(&sx::domain(m.domain())));
                 let mut c = Case::default();
@@ -977,10 +968,17 @@ fn data_doors(r: &mut Rng) -> Case {
     // (an `IntegerRange` bound must be of integer kind: `cap` is then supplied as `Primitive::Integer`, as the literal `4` of the
     // inlined text is; a `Number` there is rejected by the type-checking doors only - C19's matter, not a door disagreement)
     let cap_in_domain = r.chance(1, 2);
-    let api: Vec<(&str, Primitive, String)> = vec![
+    let mut api: Vec<(&str, Primitive, String)> = vec![
         ("cap", if !cap_in_domain && r.chance(1, 2) { Primitive::Number(cap as f64) } else { Primitive::Integer(cap) }, cap.to_string()),
         ("step", Primitive::Number(step as f64), step.to_string()),
     ];
+    // one run in three: a HUGE whole-valued number through the API (a big-M, "no limit"), beyond the i64 range, against a
+    // coefficient of the same magnitude so that it decides the optimum: `scale * y <= big` means `y <= lim`
+    let huge = r.chance(1, 3);
+    let lim = r.range(1, 9);
+    let big: f64 = *r.pick(&[1e20, 9223372036854775808.0, 1.8446744073709552e19, 1e19, 4e18]);
+    let flit = |v: f64| -> String { let t = format!("{}", v); if t.contains('.') || t.contains('e') { t } else { format!("{}.0", t) } };
+    if huge { api.push(("big", Primitive::Number(big), flit(big))); }
     // `where` constants of the text that refer to the API ones (and to each other)
     let derived = match r.below(4) {
         0 => format!("    let total = cap * 2 - {}\n", k),
@@ -991,7 +989,8 @@ fn data_doors(r: &mut Rng) -> Case {
     // where the constants are used: a right-hand side, a coefficient, a domain bound
     let dom_hi = if cap_in_domain { "cap + 4".to_string() } else { "10".to_string() };
     let obj = match r.below(3) { 0 => "max x + 2 * y", 1 => "max step * x + y", _ => "min x - y" };
-    let body = format!("{}\ns.t.\n    c: x + y <= total\n    d: y <= cap\n", obj);
+    let extra = if huge { format!("    e: {} * y <= big\n", flit(big / lim as f64)) } else { String::new() };
+    let body = format!("{}\ns.t.\n    c: x + y <= total\n    d: y <= cap\n{}", obj, extra);
     let decl = format!("define\n    x as IntegerRange(0, {})\n    y as IntegerRange(0, 10)", dom_hi);
     let text_api = format!("{}where\n{}{}", body, derived, decl);
     let inlined: String = api.iter().map(|(n, _, v)| format!("    let {} = {}\n", n, v)).collect();
@@ -1037,6 +1036,7 @@ fn data_doors(r: &mut Rng) -> Case {
     c.show = format!("API constants cap={:?} step={:?} ; {}", api[0].1, api[1].1, text_api.replace('\n', " ; "));
     c.imp = format!("(data-doors (direct {}) (roocsolver {}) (pipe {}) (inlined {}))", o_direct, o_solver, o_pipe, o_inline);
     c.tags = vec!["data-doors".into(), outcome_class(&o_inline)];
+    if huge { c.tags.push("data-doors-huge-constant".into()); }
     c.nontrivial = o_inline.starts_with("(solution") || o_inline == "(infeasible)";
     let all = [&o_direct, &o_solver, &o_pipe, &o_inline];
     let cls: Vec<String> = all.iter().map(|o| outcome_class(o)).collect();
@@ -1052,6 +1052,62 @@ fn data_doors(r: &mut Rng) -> Case {
             c.oracle = format!("ref {} {}", sx::model(d), if o_inline.starts_with("(solution") { String::new() } else { o_inline.clone() });
             if o_inline.starts_with("(solution") { c.oracle = String::new(); }
         }
+    }
+    c
+}
+
+// ======================================================================================================
+// the builder's SOLVER WRAPPERS: `Microlp::new()` (no explicit gap), `Microlp::new().with_mip_gap(0.0)`, `Auto` and the text
+// door's `solve_milp_lp_problem` must prove the same optimum on a MILP whose near-optimal solutions are close together
+// RELATIVE to the objective (large base values + small bonuses, a cardinality limit, pairwise conflicts: a fractional root
+// LP, so that an early incumbent is not optimal).
+
+fn gap_doors(r: &mut Rng) -> Case {
+    use rooc::Microlp;
+    let n = 4 + r.below(4);
+    let base = *r.pick(&[1000000.0, 250000.0, 5000000.0]);
+    let values: Vec<f64> = (0..n).map(|_| base + r.range(1, 30) as f64).collect();
+    let k = 2 + r.below(n - 2);
+    let mut conflicts: Vec<(usize, usize)> = vec![];
+    if n >= 5 && r.chance(2, 3) { conflicts.extend([(0, 2), (0, 4), (2, 4)]); }
+    for _ in 0..1 + r.below(3) { let a = r.below(n); let b = r.below(n); if a != b && !conflicts.contains(&(a.min(b), a.max(b))) { conflicts.push((a.min(b), a.max(b))); } }
+    let build = || -> (ModelBuilder, Vec<Var>) {
+        let mut b = ModelBuilder::new();
+        let x = b.add_vars("x", n, VariableType::Boolean);
+        let mut b = b.maximize(rooc::builder::sum(x.iter().zip(&values).map(|(xi, v)| *v * *xi)));
+        b = b.with(BuilderConstraint::new(rooc::builder::sum(x.iter().map(|v| Expr::from(*v))), Comparison::LessOrEqual, Expr::from(k as f64), "card".into()));
+        for (a, c) in &conflicts { b = b.with(BuilderConstraint::new(x[*a] + x[*c], Comparison::LessOrEqual, Expr::from(1.0), String::new())); }
+        (b, x)
+    };
+    let text = format!("max {}\ns.t.\n    card: {} <= {}\n{}define\n    {} as Boolean",
+        (0..n).map(|i| format!("{} * x_{}", values[i] as i64, i)).collect::<Vec<_>>().join(" + "),
+        (0..n).map(|i| format!("x_{}", i)).collect::<Vec<_>>().join(" + "), k,
+        conflicts.iter().map(|(a, c)| format!("    x_{} + x_{} <= 1\n", a, c)).collect::<String>(),
+        (0..n).map(|i| format!("x_{}", i)).collect::<Vec<_>>().join(", "));
+    let run = |f: &mut dyn FnMut() -> Result<f64, String>| -> Result<f64, String> { std::panic::catch_unwind(std::panic::AssertUnwindSafe(|| f())).unwrap_or(Err("(panic)".into())) };
+    let berr = |e: BuilderError| match e { BuilderError::Solver(e) => solver_error(&e), BuilderError::Linearization(e) => crate::props::c01::lin_error(&e) };
+    let mut ref_outcome = String::new();
+    let o_default = run(&mut || { let (b, x) = build(); b.solve_with(Microlp::new()).map(|s| {
+        let asg = x.iter().enumerate().map(|(i, v)| format!("({} {})", sx::q(&format!("x_{}", i)), sx::num(s.numeric_value(*v).unwrap_or(f64::NAN)))).collect::<Vec<_>>().join(" ");
+        ref_outcome = format!("(solution {} (assign {}))", sx::num(s.value()), asg);
+        s.value() }).map_err(berr) });
+    let o_exact = run(&mut || build().0.solve_with(Microlp::new().with_mip_gap(0.0)).map(|s| s.value()).map_err(berr));
+    let o_auto = run(&mut || build().0.solve_with(Auto).map(|s| s.value()).map_err(berr));
+    let o_text = run(&mut || match RoocSolver::try_new(text.clone()) { Err(e) => Err(format!("(parse {:?})", e).chars().take(60).collect()), Ok(s) => match s.solve_using(rooc::solve_milp_lp_problem) {
+        Ok(sol) => Ok(sol.value()), Err(RoocSolverError::Solver(e)) => Err(solver_error(&e)), Err(_) => Err("(compile-error)".into()) } });
+    let mut c = Case::default();
+    c.show = text.replace('\n', " ; ");
+    c.imp = format!("(gap-doors (microlp-default {:?}) (microlp-gap0 {:?}) (auto {:?}) (text-milp {:?}))", o_default, o_exact, o_auto, o_text);
+    c.tags = vec!["gap-doors".into()];
+    c.nontrivial = o_default.is_ok();
+    let all = [&o_default, &o_exact, &o_auto, &o_text];
+    match &o_text {
+        Ok(v) => { if all.iter().any(|o| match o { Ok(w) => (w - v).abs() > 1e-6, Err(_) => true }) { c.impl_violation = Some(format!("the builder's solver wrappers and the text door disagree on the optimum: {}", c.imp)); } }
+        Err(e) => { if all.iter().any(|o| match o { Err(f) => f != e, Ok(_) => true }) { c.impl_violation = Some(format!("the builder's solver wrappers and the text door disagree on the verdict: {}", c.imp)); } }
+    }
+    // the default wrapper's answer is also judged by the reference interpreter (2^n points)
+    if !ref_outcome.is_empty() {
+        if let Ok(tm) = RoocParser::new(text.clone()).parse_and_transform(vec![], &IndexMap::new()) { c.oracle = format!("ref {} {}", sx::model(&tm), ref_outcome); }
     }
     c
 }
